@@ -562,7 +562,12 @@ func (g *Gen) malformed() {
 	case 2:
 		g.emit(-1, "Remove %s", hx([]byte(anyName()))) // non-empty directories
 	case 3:
-		g.emit(-1, "Rename %s %s", hx([]byte(anyName())), hx([]byte(anyName())))
+		a, b := anyName(), anyName()
+		if a != b && (strings.HasPrefix(a+"/", b+"/") || strings.HasPrefix(b+"/", a+"/")) {
+			g.emit(-1, "Stat %s", hx([]byte(a))) // ancestor/descendant renames: outcome depends on Go map order
+		} else {
+			g.emit(-1, "Rename %s %s", hx([]byte(a)), hx([]byte(b)))
+		}
 	case 4:
 		g.emit(g.newSlot(), "OpenFile %s %d %d", hx([]byte(anyName())), Pick(r, []int{oAPPEND | 1, oAPPEND | 2, oSYNC, oTRUNC, oEXCL, oEXCL | 2, oCREATE | oEXCL | oTRUNC | 1, oAPPEND | oCREATE | 2, 3, 0x42 | oAPPEND}), 0o644)
 	case 5:
